@@ -21,6 +21,7 @@ META = {
     "assumptions": ["a sentinel is compared as cast to the result dtype (an integer result cannot hold 2.5)",
                     "valid_count with a plain replacement value under propagation is excluded as the property states"],
 }
+META["rule"] += '; round 7: weights that are all exactly 1 (one case in eight)'
 
 
 def shards(tier):
